@@ -173,6 +173,12 @@ type TrIn struct {
 // keys are written and read as they are
 type TrKey string
 
+// transforms the machinery cannot serve (the delegate machine shares the slab row): ChU's serial type ChT has a transform
+// of its own; ChW's serial type is a pointer.  They live in atlas 90 only; the library must REFUSE, not panic.
+type ChT struct{ X string }
+type ChU struct{ Y string }
+type ChW struct{ Z string }
+
 // structs with more fields than a one-byte counter holds (and more than a signed one does)
 var hugeT130, hugeT260 = hugeStruct(130), hugeStruct(260)
 
@@ -341,6 +347,20 @@ var transforms = []trPair{
 				return "", fmt.Errorf("want the c/ prefix")
 			}
 			return TrKey(s[2:]), nil
+		}},
+	{14,
+		func(t ChT) (string, error) { return t.X, nil },
+		func(s string) (ChT, error) { return ChT{s}, nil }},
+	{15,
+		func(u ChU) (ChT, error) { return ChT{u.Y}, nil },
+		func(t ChT) (ChU, error) { return ChU{t.X}, nil }},
+	{16,
+		func(w ChW) (*string, error) { z := w.Z; return &z, nil },
+		func(p *string) (ChW, error) {
+			if p == nil {
+				return ChW{}, nil
+			}
+			return ChW{*p}, nil
 		}},
 	{12,
 		func(t TrIn) (Inner, error) { return Inner{t.X, t.Y}, nil },
@@ -617,6 +637,11 @@ func buildAtlases() {
 	// 6: built WITHOUT WithMapMorphism (the atlas default is whatever Build provides); one named map type with its own
 	//    length-first order next to plain maps
 	mk(6, atlas.KeySortMode_Default, atlas.KeySortMode_Default, false, mmEntry(StrMap{}, -1, atlas.KeySortMode_RFC7049))
+	// 90: the chained transforms (not part of the generic loops over the zoo's atlases)
+	{
+		es := []*atlas.AtlasEntry{trEntry(ChT{}, 14, -1), trEntry(ChU{}, 15, -1), trEntry(ChW{}, 16, -1)}
+		atlases = append(atlases, &atlasCfg{id: 90, atl: atlas.MustBuild(es...), entries: es, nReg: len(es), sort: atlas.KeySortMode_Default})
+	}
 	// 5: DERIVED from atlas 1 (which stays in use) with another default map order: same entries, independent configuration
 	for _, a1 := range atlases {
 		if a1.id == 1 {
@@ -749,6 +774,10 @@ func zooDefs() []string {
 		}
 	}
 	tid(reflect.TypeOf(myInt(0)))
+	tid(reflect.TypeOf((*ChW)(nil)))
+	tid(reflect.TypeOf((*ChU)(nil)))
+	tid(reflect.TypeOf([]ChU{}))
+	tid(reflect.TypeOf((*string)(nil)))
 	for _, fam := range shapeFamilies {
 		for _, t := range fam.all {
 			tid(t)
@@ -796,7 +825,7 @@ func zooAtlases() []*atlasCfg {
 	buildAtlases()
 	var out []*atlasCfg
 	for _, a := range atlases {
-		if a.id < 100 {
+		if a.id < 90 {
 			out = append(out, a)
 		}
 	}
